@@ -84,6 +84,26 @@ def run(chk):
             ps_, q_ = [(p[0] * sc, p[1] * sc) for p in pts], (q[0] * sc, q[1] * sc)
             l1.append("kd1 %d %s %s %s" % (len(ps_), " ".join(fhex(p[0]) + " " + fhex(p[1]) for p in ps_), fhex(q_[0]), fhex(q_[1])))
             m1.append((ps_, q_))
+    # the same searches with the query point carrying the spherical tag (what Objects::Surface passes in spherical worlds, with
+    # coordinates in radians): the kd-tree works on the stored coordinates whatever the tag says, so the answers are the same
+    ls_, ms_ = [], []
+    for si, (pts, qs) in enumerate(sets):
+        if si % 3 != 0:
+            continue
+        sc = 0.01
+        lat0 = (0.0, 0.9, 1.3)[(si // 3) % 3]
+        for q in qs[:5]:
+            ps_, q_ = [(p[0] * sc, lat0 + p[1] * sc * 0.1) for p in pts], (q[0] * sc, lat0 + q[1] * sc * 0.1)
+            body = "%d %s %s %s" % (len(ps_), " ".join(fhex(p[0]) + " " + fhex(p[1]) for p in ps_), fhex(q_[0]), fhex(q_[1]))
+            ls_ += ["kd " + body, "kds " + body, "kd1 " + body, "kd1s " + body]
+            ms_.append((ps_, q_))
+    as_ = common.run_probe(ls_)
+    for k, (ps_, q_) in enumerate(ms_):
+        chk.evaluations += 2
+        a_c, a_s, b_c, b_s = as_[4 * k:4 * k + 4]
+        if a_c != a_s or b_c != b_s:
+            viol.append(("the kd-tree search gives another answer when the query point carries the spherical tag (it must use the stored coordinates as they are)",
+                         {"line": ls_[4 * k + 1], "cartesian_tag": a_c[-120:], "spherical_tag": a_s[-120:], "single_cartesian": b_c, "single_spherical": b_s}))
     for line, (ps_, q_), a in zip(l1, m1, common.run_probe(l1)):
         chk.evaluations += 1
         v = common.parse_vec(a)
